@@ -187,8 +187,15 @@ CRITERIA = ["alloc", "gc time", "a\\tb", "é", "x=y", "50%", "mem{}", "trailing\
 UNITS = ["ms", "us", "MB", "kb", "B"]
 
 
-def output_for(serial, niter, crits):
+def output_for(serial, niter, crits, validation=False):
     lines, pts = [], []
+    if validation:
+        # the ValidationLog format: every result line carries a boolean criterion next to its time
+        for it in range(1, niter + 1):
+            tv, ok = serial * 100 + it * 10 + 9, (serial + it) % 2 == 0
+            lines.append("B: iterations=1 runtime: %dus success: %s" % (tv * 1000 + 250, "true" if ok else "false"))
+            pts.append([("Success", "bool", ok), ("total", "ms", tv + 0.25)])
+        return "\n".join(lines) + "\n", pts
     for it in range(1, niter + 1):
         ms = []
         for j, (c, u) in enumerate(crits):
@@ -221,6 +228,12 @@ def histories_part(chk):
         d = session.scratch_dir()
         try:
             raw = gen_config(rng, d)
+            # every fourth history: the ValidationLog adapter, whose data points hold a boolean measurement
+            validation = i % 4 == 3
+            if validation:
+                for su_ in raw["benchmark_suites"].values():
+                    su_["gauge_adapter"] = "ValidationLog"
+                chk.count("histories_with_boolean_measurements")
             machine = ["-m", "m1"] if "machines" in raw else []
             data_file = os.path.join(d, "c07.data")
             niter = rng.randint(1, 3)
@@ -233,7 +246,7 @@ def histories_part(chk):
 
             def script(key, k, inv):
                 serial["n"] += 1
-                return 0, output_for(serial["n"], niter, crits)[0]
+                return 0, output_for(serial["n"], niter, crits, validation)[0]
 
             def start_key(args):
                 m = INV_RE.search(args)
@@ -267,7 +280,7 @@ def histories_part(chk):
                     if stop["n"] > stop["at"]:
                         raise KeyboardInterrupt()
                 serial["n"] += 1
-                return 0, output_for(serial["n"], niter, crits)[0]
+                return 0, output_for(serial["n"], niter, crits, validation)[0]
             s1 = one(n1, "record")
             nses += 1
             case["interrupted_after_starts"] = stop["at"]
@@ -353,7 +366,7 @@ def histories_part(chk):
                 rows = file_rows(dh.read_bytes(f))
                 by_rid = {}
                 for r in rows["data"]:
-                    by_rid.setdefault(r[-1], []).append((int(r[0]), int(r[1]), r[4], r[3], round(float(r[2]), 6)))
+                    by_rid.setdefault(r[-1], []).append((int(r[0]), int(r[1]), r[4], r[3], round(float(r[2] == "True") if r[2] in ("True", "False") else float(r[2]), 6)))
                 rec_sorted = sorted(sorted(recorded.get(run_key(r), [])) for r in runs_f if recorded.get(run_key(r)))
                 if sorted(sorted(v) for v in by_rid.values()) != rec_sorted:
                     chk.violation("C07 criterion, unit, value, invocation and iteration of every measurement are read back from the file",
